@@ -223,6 +223,19 @@ def run_sizes():
                 solve.fact('sizes:Derivative(%s)-non-vectorised-fun-raises-ValueError' % method, True)
             except Exception as e:
                 solve.fact('sizes:Derivative(%s)-non-vectorised-fun-raises-ValueError' % method, False, note=repr(e)[:100])
+        # the n == 0 path (f itself) goes through the same size check
+        for method in ('central', 'complex'):
+            for nm_, f_ in (('np.sum', lambda x: np.sum(x ** 2)), ('first-two', lambda x: x[:2] ** 2)):
+                for how in ('constructor', 'setter'):
+                    try:
+                        d = nd.Derivative(f_, method=method, n=0 if how == 'constructor' else 1)
+                        d.n = 0
+                        out = d(np.array([1.0, 2.0, 3.0]))
+                        solve.fact('sizes:Derivative(%s,n=0 by %s),fun=%s-raises-ValueError' % (method, how, nm_), False, note='returned %r' % (out,))
+                    except ValueError:
+                        solve.fact('sizes:Derivative(%s,n=0 by %s),fun=%s-raises-ValueError' % (method, how, nm_), True)
+                    except Exception as e:
+                        solve.fact('sizes:Derivative(%s,n=0 by %s),fun=%s-raises-ValueError' % (method, how, nm_), False, note=repr(e)[:100])
     return dict(size_cases=cases)
 
 
@@ -315,7 +328,8 @@ def run_others():
                     fn(np.array(xs), 0.0, n); bad.append((fn.__name__, len(xs), n))
                 except ValueError:
                     pass
-        for fx, x, n in [(np.ones(3), np.arange(3.0), 3), (np.ones(4), np.arange(5.0), 1)]:
+        for fx, x, n in [(np.ones(3), np.arange(3.0), 3), (np.ones(4), np.arange(5.0), 1), (np.ones(10), np.arange(12.0), 1), (np.ones(12), np.arange(10.0), 1),
+                         (np.ones(9), np.arange(12.0), 2)]:
             try:
                 fb.fd_derivative(fx, x, n); bad.append(('fd_derivative', len(fx), len(x), n))
             except ValueError:
